@@ -22,6 +22,10 @@ NOTES = ("Technique family: machine-checked proof in Lean 4. Every claimed prope
          "hand-written model in lean/Rml/Model, tied to /repo by the correspondence run of tools/check.py. See DESIGN.md.")
 
 PROPS = {
+    "C01": dict(lean=["Rml.Props.C20"], families=["chunk"], level_text="wip", level_note="wip"),
+    "C07": dict(lean=["Rml.Props.C20"], families=["chunk"], level_text="wip", level_note="wip"),
+    "C08": dict(lean=["Rml.Props.C20"], families=["chunk"], level_text="wip", level_note="wip"),
+    "C19": dict(lean=["Rml.Props.C20"], families=["chunk"], level_text="wip", level_note="wip"),
     "C04": dict(
         lean=["Rml.Props.C04"], families=["amf"],
         level_text="Theorem C04_roundtrip: for EVERY value sequence (unbounded size, any nesting the encoder accepts, all 2^64 number patterns, any UTF-8, any enumeration order of every map) the encoder model's output is decoded by the decoder model, consuming all bytes, to exactly that sequence; C04_errors characterises exactly when encoding is refused (string/name > 65535 bytes, empty name, nesting > 128). Proved via the specification relation (encoder ⊆ spec, decoder inverts spec) by mutual structural induction. The model is tied to amf0/src by the `amf` correspondence family on every run.",
